@@ -4,6 +4,6 @@ From Clikit Require Import Base.Prelude Base.Res Base.Term Model.Conv Model.Mark
 Local Open Scope Z_scope.
 
 Definition range (p : pbar) : Prop := 0 <= p_step p /\ 0 <= p_max p /\ (0 < p_max p -> p_step p <= p_max p).
-Lemma new_range ansi quiet sec w f st v mx bw mn md xn xd rf cu msg now :
-  range (pb_new ansi quiet sec w f st v mx bw mn md xn xd rf cu msg now).
+Lemma new_range ansi quiet sec w f st v mx bw mn md xn xd rf pc cu msg now :
+  range (pb_new ansi quiet sec w f st v mx bw mn md xn xd rf pc cu msg now).
 Proof. unfold range, pb_new, set_max_steps, set_steps; cbn. lia. Qed.
